@@ -5,7 +5,7 @@ from extract import Source
 import units
 import subprocess
 src = Source(subprocess.check_output(['/verif/tools/expand.sh']).decode().strip().splitlines()[-1])
-for u in units.UNITS[sys.argv[1]](src, *(sys.argv[2:3])):
+for u in units.UNITS[sys.argv[1]](src, (sys.argv[2:3] or ["quick"])[0]):
     text = u.emit()
     os.makedirs('/verif/.cache/units', exist_ok=True)
     path = '/verif/.cache/units/%s_%s.rs' % (u.name, u.model)
